@@ -252,6 +252,8 @@ def run_case(case):
         judge_lines(out, m, sc, dict(enumerate(obs)), "native debug build")
         site_counts(out, m, cfg, sc, obs)
     C.std_labels(out, m)
+    if E.enabled(cfg, "MIN") or E.enabled(cfg, "MAX"):
+        out.excluded["KF2"] = 1          # variant identifiers MIN / MAX are kept out of the pool while KF2 is listed
     lab = m.labels()
     unsafe_exec = any(k.startswith("site_") for k in out.sub)
     out.nontrivial = unsafe_exec and ((not m.gapless) or lab["touch_type_min"] or lab["touch_type_max"])
